@@ -6,7 +6,7 @@
    every message (MsgSyncResponse{error}).  One action per critical section:
 
      server.handleStream, one loop iteration      == Recv   (validReq -> setErr | setConnected; updateStep; response;
-                                                              shutdown flag)  -- used by Report / ShutMsg / FMsg
+                                                              shutdown flag)  -- used by Ping / ShutMsg / FMsg
      startSyncProtocol: clients connected, server.Err()==nil, AwaitAllConnected     == Connected  (then step := 1)
      stepSyncFunc: step++, SetStep on every client                                  == Next / Stop (env: Run got there)
      server.AwaitAllAtStep returns nil / "peer step is too far ahead"               == Pass / TooFar
@@ -105,7 +105,7 @@ Start(i) ==                                              \* env: Run reaches sta
   /\ phase' = [phase EXCEPT ![i] = "conn"]
   /\ UNCHANGED <<cfg, step, passed, cause, conn, rep, shut, serr, valid, sent, fst>>
 \* the periodic message of j's client reaches the server of i
-Report(j, i) ==
+Ping(j, i) ==
   /\ j \in Honest /\ i \in Honest /\ i # j /\ ClientUp(j, i) /\ ServerUp(i)
   /\ Recv(i, j, Msg("ok", step[j], FALSE))
   /\ UNCHANGED <<cfg, phase, step, passed, cause, sent, fst>>
